@@ -4,12 +4,30 @@ import json, os
 HERE = os.path.dirname(os.path.abspath(__file__))
 BASE = json.load(open("/root/.vp/BASELINE.json"))["cmd"] if os.path.exists("/root/.vp/BASELINE.json") else ""
 
+SEQ_NOTE = ("Trusted: Coq kernel; extraction (ExtrOcamlBasic), OCaml drivers incl. a hand-written SHA-256 that only instantiates the model's hash parameter; "
+            "the Go harness (simulated stores with fault/crash/hold gates, canonicalisation); Ctlog/Model.v is a hand transcription of internal/ctlog/ctlog.go tied by "
+            "differential histories (every storage/lock operation incl. payload digests, acknowledgements, load/create results must match); trees/tiles are kept at "
+            "specification level in the model; load-time tile authentication is a verifying-reader specification; lock store assumed a CAS register (C05); "
+            "S3 eventual consistency, names-tile JSON and x509 parsing not modelled.")
 CHECKS = {
+ "C01": dict(
+   text="Proof (Coq, all event lists: any submissions, rounds, fault placements applied or not, crashes, restarts, clocks, any number of instances, tampering): the lock-store checkpoint history is append-only (sizes, prefix roots, strictly increasing timestamps) and every published checkpoint was committed first; the invariant is inductive over a small-step model of CreateLog/LoadLog/sequencePool. Tie: generated histories run against real ctlog.Log instances and replayed by the extracted model (operation-level equality incl. payload digests) plus independent-tree monitors.",
+   ref="5 (C01), 5.0", note=SEQ_NOTE + " The published-history clause is a theorem only for the lock store; for object storage it is exercised by monitors (and false with two live instances: known finding under C06).",
+   technique="Coq inductive invariant over a small-step sequencer model + extracted-model differential histories against real ctlog.Log"),
+ "C06": dict(
+   text="Proof (Coq, all interleavings at operation granularity of any number of instances): lock history has no repeated value, the lock is its last element, a refused compare-and-swap changes nothing, is fatal and acknowledges nothing, CreateLog never overwrites, LoadLog refuses storage-ahead / same-size-other-root / foreign key or name / extension. Tie: two gated real instances with hold points, start-up state scenarios. The rollback of the *published* checkpoint by a superseded instance is a confirmed known finding.",
+   ref="5 (C06), 0.3", note=SEQ_NOTE, technique="Coq invariant + step lemmas over the multi-instance sequencer model + differential two-instance histories"),
+ "C08": dict(
+   text="Proof (Coq): tampering events (any object replaced by anything or deleted, anywhere in the event list) are part of the quantified event lists of the invariant: the committed history stays one append-only chain. Partial: the verifying tile reader is a specification in the model; the tamper stream of the harness (delete, truncate, bit-flip, substitute, checkpoint rollback, then restart and further rounds) checks the real reader against it.",
+   ref="5 (C08)", note=SEQ_NOTE, technique="Coq invariant closed under arbitrary EvTamper events (C08_partial) + differential tamper histories"),
  "C10": dict(
-   text="Proof (Coq, all inputs): the leaf/extension/tile-path codec model is a canonical bijection (8+ theorems, closed under the global context); the model is tied to tile.go/extensions.go by a differential run of the extracted model against the Go functions on ~20k generated and mutated inputs per quick run, plus implementation-side monitors of every clause.",
+   text="Proof (Coq, all inputs): the leaf/extension/tile-path codec model is a canonical bijection (9 theorems, closed under the global context); the model is tied to tile.go/extensions.go by a differential run of the extracted model against the Go functions on ~20k generated and mutated inputs per quick run, plus implementation-side monitors of every clause.",
    ref="5 (C10)",
    note="Trusted: Coq kernel; extraction (ExtrOcamlBasic) and the OCaml/Go drivers; the hand transcription Codec/Leaf.v (tied only by differential testing); cryptobyte and x/mod tlog path functions are modelled, not verified.",
    technique="Coq proof of round-trip/canonicity theorems over an executable Gallina codec model + extracted-model differential against the Go implementation"),
+ "C17": dict(
+   text="Proof (Coq, all pools/arrival orders/victim choices): the admission function (mutex-protected part of addLeafToPool) keeps the pool within its size, rejects low priority when full, evicts exactly one pending low-priority entry for a high-priority one (else rejects), and rejects everything once closed; the stop paths are part of the sequencer model. Tie: pool-size 1..3 scenarios, clock-stall fatal stops and cancellations against real RunSequencer goroutines; every waiter outcome compared.",
+   ref="5 (C17)", note=SEQ_NOTE + " 'Promptly' is checked by the harness only as 'returns within the quiescence window'.", technique="Coq theorems about the admission function + differential pool/stop histories"),
 }
 NOT_APPLICABLE = []
 
